@@ -14,6 +14,7 @@ import (
 	"runtime/debug"
 	"sort"
 	"strings"
+	"time"
 
 	"github.com/notaryproject/notation-core-go/signature"
 	"github.com/notaryproject/notation-go"
@@ -56,6 +57,7 @@ type Result struct {
 	Controls   int      `json:"pc,omitempty"` // positive controls seen
 	ControlsOK int      `json:"pk,omitempty"`
 	MaxAlloc   uint64   `json:"a,omitempty"`
+	Isolated   bool     `json:"iso,omitempty"` // the case ran alone in its process, with the grace period metered
 }
 
 func (r *Result) class(format string, a ...any) { r.Classes = append(r.Classes, fmt.Sprintf(format, a...)) }
@@ -248,13 +250,38 @@ func stackTop(st string) string {
 // ---------------------------------------------------------------------------
 // the consistency oracle
 
-func isSelectionFailure(err error) bool {
+// looksLikeSelectionFailure is used for outcome CLASS names only (statistics), never for a verdict.
+func looksLikeSelectionFailure(err error) bool {
 	var na notation.ErrorNoApplicableTrustPolicy
 	if errors.As(err, &na) {
 		return true
 	}
-	s := err.Error()
-	return s == "ociTrustPolicyDoc is nil" || s == "blobTrustPolicyDoc is nil"
+	return strings.Contains(err.Error(), "PolicyDoc is nil")
+}
+
+// selectableOCI / selectableBlob: does the policy document the verifier was built from select a statement
+// for this call? Decided by the document's own exported selection functions (no re-implementation), so the
+// exemption "failures before a statement is selected" does not depend on error wording or error types.
+func selectableOCI(doc *trustpolicy.OCIDocument, ref string) bool {
+	if doc == nil {
+		return false
+	}
+	p, err := doc.GetApplicableTrustPolicy(ref)
+	return err == nil && p != nil
+}
+
+func selectableBlob(doc *trustpolicy.BlobDocument, name string) bool {
+	if doc == nil {
+		return false
+	}
+	var p *trustpolicy.BlobTrustPolicy
+	var err error
+	if name == "" {
+		p, err = doc.GetGlobalTrustPolicy()
+	} else {
+		p, err = doc.GetApplicableTrustPolicy(name)
+	}
+	return err == nil && p != nil
 }
 
 func failedType(o *notation.VerificationOutcome) string {
@@ -291,7 +318,7 @@ func touchOutcome(o *notation.VerificationOutcome, stage *string) {
 }
 
 // judgeVerifier applies both clauses to a (outcome, error) pair of verifier.Verify / verifier.VerifyBlob.
-func judgeVerifier(res *Result, entry string, c *Case, o *notation.VerificationOutcome, err error) string {
+func judgeVerifier(res *Result, entry string, c *Case, o *notation.VerificationOutcome, err error, selectable bool) string {
 	e := entryName(entry)
 	if err == nil {
 		switch {
@@ -308,7 +335,9 @@ func judgeVerifier(res *Result, entry string, c *Case, o *notation.VerificationO
 		return "accepted"
 	}
 	_ = err.Error()
-	if isSelectionFailure(err) {
+	var na notation.ErrorNoApplicableTrustPolicy
+	if !selectable || errors.As(err, &na) {
+		// the statement's second clause speaks about failures after policy selection only
 		return "no-statement-selected"
 	}
 	if o == nil || o.Error == nil {
@@ -408,31 +437,34 @@ func (x *wctx) matrixSig(t *Tuple, kind string) ([]byte, string) {
 }
 
 type cachedVerifier struct {
-	v   bothVerifier
-	err error
+	v    bothVerifier
+	err  error
+	oci  *trustpolicy.OCIDocument
+	blob *trustpolicy.BlobDocument
 }
 
 // matrixVerifier constructs the verifier of a cell inside a protected call; one instance per configuration is
 // kept per worker, so most cells run on an instance that has already served other calls (a history on one instance).
-func (x *wctx) matrixVerifier(res *Result, c *Case, t *Tuple) (bothVerifier, error, bool) {
+func (x *wctx) matrixVerifier(res *Result, c *Case, t *Tuple) (cachedVerifier, bool) {
 	key := t.Cons + "/" + t.PM + "/" + t.Rev + "/" + t.Level + "/" + t.Place
 	if cv, ok := x.matrixV[key]; ok {
-		return cv.v, cv.err, false
+		return cv, false
 	}
 	var cv cachedVerifier
 	if x.call(res, c, "verifier.NewVerifierWithOptions", func(*string) {
-		vv, err := verifier.NewVerifierWithOptions(x.ts, x.matrixOptions(t))
+		opts := x.matrixOptions(t)
+		vv, err := verifier.NewVerifierWithOptions(x.ts, opts)
 		if err != nil {
 			cv.err = err
 			_ = err.Error()
 			return
 		}
-		cv.v = vv
+		cv.v, cv.oci, cv.blob = vv, opts.OCITrustPolicy, opts.BlobTrustPolicy
 	}) {
-		return nil, nil, true
+		return cachedVerifier{}, true
 	}
 	x.matrixV[key] = cv
-	return cv.v, cv.err, false
+	return cv, false
 }
 
 func metadataOf(t *Tuple) map[string]string {
@@ -446,7 +478,8 @@ func metadataOf(t *Tuple) map[string]string {
 }
 
 // matrixCall runs the entry point of a cell and returns the outcome class.
-func (x *wctx) matrixCall(res *Result, c *Case, t *Tuple, v bothVerifier, blobReader func([]byte) io.Reader) string {
+func (x *wctx) matrixCall(res *Result, c *Case, t *Tuple, cv cachedVerifier, blobReader func([]byte) io.Reader) string {
+	v := cv.v
 	var class string
 	desc, blob := x.fx.Desc, x.fx.Blob
 	if t.Artifact == "mismatching" {
@@ -470,14 +503,18 @@ func (x *wctx) matrixCall(res *Result, c *Case, t *Tuple, v bothVerifier, blobRe
 		x.call(res, c, t.Entry, func(stage *string) {
 			o, err := v.Verify(ctx, desc, sig, notation.VerifierVerifyOptions{ArtifactReference: ref, SignatureMediaType: mt, UserMetadata: meta})
 			touchOutcome(o, stage)
-			class = judgeVerifier(res, t.Entry, c, o, err)
+			class = judgeVerifier(res, t.Entry, c, o, err, selectableOCI(cv.oci, ref))
 		})
-	case "verifier.VerifyBlob":
+	case "verifier.VerifyBlob", "verifier.VerifyBlob(reader)":
 		sig, mt := x.matrixSig(t, "blob")
-		x.call(res, c, t.Entry, func(stage *string) {
-			o, err := v.VerifyBlob(ctx, blobDescGen(blob), sig, notation.BlobVerifierVerifyOptions{SignatureMediaType: mt, TrustPolicyName: name, UserMetadata: meta})
+		x.call(res, c, "verifier.VerifyBlob", func(stage *string) {
+			gen := blobDescGen(blob)
+			if t.Entry == "verifier.VerifyBlob(reader)" {
+				gen = readerDescGen(blobReader(blob))
+			}
+			o, err := v.VerifyBlob(ctx, gen, sig, notation.BlobVerifierVerifyOptions{SignatureMediaType: mt, TrustPolicyName: name, UserMetadata: meta})
 			touchOutcome(o, stage)
-			class = judgeVerifier(res, t.Entry, c, o, err)
+			class = judgeVerifier(res, "verifier.VerifyBlob", c, o, err, selectableBlob(cv.blob, name))
 		})
 	case "notation.Verify":
 		sig, mt := x.matrixSig(t, "oci")
@@ -491,9 +528,9 @@ func (x *wctx) matrixCall(res *Result, c *Case, t *Tuple, v bothVerifier, blobRe
 			touchOutcome(o, stage)
 			class = judgeNotationVerifyBlob(res, c, o, err)
 			if err == nil && (t.Sig == "empty" || t.Sig == "nil") {
-				// notation.go: "signature cannot be nil or empty" is an argument check made before any policy is consulted
-				res.viol("guard/no-error-for-empty-signature:notation.VerifyBlob", "notation.VerifyBlob accepted a %s signature without error | case: %s", t.Sig, c.describe())
-				class = "violation"
+				// the statement does not say that an empty signature is an error (under a skip-level statement the
+				// skip outcome is a normal return): evidence only
+				res.class("recorded:guard/no-error-for-empty-signature:notation.VerifyBlob")
 			}
 		})
 	}
@@ -515,16 +552,16 @@ func coarse(class string) string {
 func (x *wctx) runMatrix(c *Case, res *Result) {
 	t := c.Matrix
 	pre := "config-matrix:" + t.Entry + ":" + t.Level + ":"
-	v, cerr, panicked := x.matrixVerifier(res, c, t)
+	cv, panicked := x.matrixVerifier(res, c, t)
 	if panicked {
 		return
 	}
-	if cerr != nil {
+	if cv.err != nil {
 		res.class("config-matrix:construction-refused(%s@%s)", t.Level, t.Place)
 		return
 	}
 	res.Nontrivial = true
-	class := x.matrixCall(res, c, t, v, wholeReader)
+	class := x.matrixCall(res, c, t, cv, wholeReader)
 	res.class("%s%s", pre, class)
 	if t.Attr != "none" || t.Artifact != "matching" || t.Meta != "none" {
 		kind := "oci"
@@ -609,27 +646,50 @@ func (r *seamReader) Read(p []byte) (int, error) {
 	panic("unknown reader kind " + r.kind)
 }
 
-func (x *wctx) runReaderSeam(c *Case, res *Result) {
+// readerDescGen is a descriptor generator that hashes what the caller's reader delivers (what notation.VerifyBlob
+// builds internally), so that verifier.VerifyBlob - whose failure side is judged - meets the reader's behaviour too.
+func readerDescGen(r io.Reader) notation.BlobDescriptorGenerator {
+	return func(alg digest.Algorithm) (ocispec.Descriptor, error) {
+		if !alg.Available() {
+			return ocispec.Descriptor{}, fmt.Errorf("digest algorithm %q not available", alg)
+		}
+		dg := alg.Digester()
+		n, err := io.Copy(dg.Hash(), r)
+		if err != nil {
+			return ocispec.Descriptor{}, err
+		}
+		return ocispec.Descriptor{MediaType: "application/octet-stream", Digest: dg.Digest(), Size: n}, nil
+	}
+}
+
+func (x *wctx) runReaderSeam(c *Case, res *Result) error {
 	t := c.Matrix
-	v, cerr, panicked := x.matrixVerifier(res, c, t)
-	if panicked || cerr != nil {
-		res.viol("harness/reader-seam-verifier", "verifier for the reader seam could not be built: %v", cerr)
-		return
+	cv, panicked := x.matrixVerifier(res, c, t)
+	if panicked {
+		return nil
+	}
+	if cv.err != nil {
+		return fmt.Errorf("verifier for the reader seam could not be built: %w", cv.err)
 	}
 	res.Nontrivial = true
-	plain := x.matrixCall(res, c, t, v, wholeReader)
-	seam := x.matrixCall(res, c, t, v, func(b []byte) io.Reader { return &seamReader{data: b, kind: c.Kind} })
+	seamReaderOf := func(b []byte) io.Reader { return &seamReader{data: b, kind: c.Kind} }
+	// judged: no panic, allocation ceiling, both consistency clauses (through verifier.VerifyBlob fed from the reader)
+	plain := x.matrixCall(res, c, t, cv, wholeReader)
+	seam := x.matrixCall(res, c, t, cv, seamReaderOf)
+	tv := *t
+	tv.Entry = "verifier.VerifyBlob(reader)"
+	vseam := x.matrixCall(res, c, &tv, cv, seamReaderOf)
+	// evidence only: whether the verdict depends on the delivery is a matter of blob verification's correctness
+	// (C01), the statement of C12 speaks about returning normally and consistently
 	failing := strings.HasPrefix(c.Kind, "failing")
 	switch {
-	case !failing && seam != plain:
-		res.viol("reader-seam/verdict-depends-on-delivery:"+c.Kind, "notation.VerifyBlob: %q with a plain reader, %q with a reader delivering the same bytes %s | case: %s", plain, seam, c.Kind, c.describe())
-		res.class("reader-seam:%s:violation", c.Kind)
-	case failing && t.Level != "skip" && (seam == "accepted") && c.Kind == "failing-after-half":
-		res.viol("reader-seam/accepted-with-truncated-blob", "notation.VerifyBlob accepted although the reader failed after half of the blob | case: %s", c.describe())
-		res.class("reader-seam:%s:violation", c.Kind)
-	default:
-		res.class("reader-seam:%s:%s:plain=%s,seam=%s", c.Kind, t.Level, coarse(plain), coarse(seam))
+	case !failing && coarse(seam) != coarse(plain):
+		res.class("recorded:reader-seam/verdict-depends-on-delivery:%s", c.Kind)
+	case c.Kind == "failing-after-half" && t.Level != "skip" && coarse(seam) == "accepted":
+		res.class("recorded:reader-seam/accepted-with-truncated-blob")
 	}
+	res.class("reader-seam:%s:%s:plain=%s,seam=%s,verifier.VerifyBlob=%s", c.Kind, t.Level, coarse(plain), coarse(seam), coarse(vseam))
+	return nil
 }
 
 func (x *wctx) judgeNotationVerify(res *Result, c *Case, stage *string, v notation.Verifier, repo registry.Repository, ref string) string {
@@ -643,7 +703,7 @@ func (x *wctx) judgeNotationVerifyMeta(res *Result, c *Case, stage *string, v no
 	}
 	if err != nil {
 		_ = err.Error()
-		if isSelectionFailure(err) {
+		if looksLikeSelectionFailure(err) {
 			return "no-statement-selected"
 		}
 		var rf notation.ErrorSignatureRetrievalFailed
@@ -652,23 +712,25 @@ func (x *wctx) judgeNotationVerifyMeta(res *Result, c *Case, stage *string, v no
 		}
 		return fmt.Sprintf("rejected(%d outcomes; failure side not judged)", len(outcomes))
 	}
-	if len(outcomes) == 0 {
-		res.viol("consistency/success-without-outcome:notation.Verify", "notation.Verify returned no error and no outcome | case: %s", c.describe())
-		return "violation"
-	}
-	skipped := false
+	// "no error means an outcome without error": at least one outcome that is non-nil and error-free.
+	// Further entries (e.g. the outcomes of signatures that failed before the good one) are not excluded by the statement.
+	good, skipped, extra := 0, false, 0
 	for _, o := range outcomes {
-		if o == nil {
-			res.viol("consistency/success-with-nil-outcome:notation.Verify", "notation.Verify returned no error and a nil outcome | case: %s", c.describe())
-			return "violation"
+		if o == nil || o.Error != nil {
+			extra++
+			continue
 		}
-		if o.Error != nil {
-			res.viol("consistency/success-with-outcome-error:notation.Verify", "notation.Verify returned no error but outcome.Error = %v | case: %s", o.Error, c.describe())
-			return "violation"
-		}
+		good++
 		if o.VerificationLevel != nil && o.VerificationLevel.Name == "skip" {
 			skipped = true
 		}
+	}
+	if good == 0 {
+		res.viol("consistency/success-without-error-free-outcome:notation.Verify", "notation.Verify returned no error and %d outcomes, none of them non-nil and without Error | case: %s", len(outcomes), c.describe())
+		return "violation"
+	}
+	if extra > 0 {
+		res.class("recorded:notation.Verify/success-with-additional-nil-or-failed-outcomes")
 	}
 	if skipped {
 		return "skipped"
@@ -692,7 +754,7 @@ func judgeNotationVerifyBlob(res *Result, c *Case, o *notation.VerificationOutco
 		return "accepted"
 	}
 	_ = err.Error()
-	if isSelectionFailure(err) {
+	if looksLikeSelectionFailure(err) {
 		return "no-statement-selected"
 	}
 	if strings.HasPrefix(err.Error(), "signature cannot be nil or empty") || strings.HasPrefix(err.Error(), "invalid signature media-type") {
@@ -775,7 +837,7 @@ func (x *wctx) runEnvelope(c *Case, res *Result) error {
 					o, err = v.VerifyBlob(ctx, blobDescGen(x.fx.Blob), c.Input, notation.BlobVerifierVerifyOptions{SignatureMediaType: mt, TrustPolicyName: "p"})
 				}
 				touchOutcome(o, stage)
-				class = judgeVerifier(res, entry, c, o, err)
+				class = judgeVerifier(res, entry, c, o, err, true) // wildcard scope, digest reference, statement "p" exists
 				if !parseFailed(o) {
 					res.Nontrivial = true
 				}
@@ -797,10 +859,14 @@ func (x *wctx) runEnvelope(c *Case, res *Result) error {
 					}
 					return
 				}
-				if si == nil || len(sig) == 0 {
-					res.viol("consistency/sign-success-without-result:PluginSigner.Sign", "PluginSigner.Sign returned no error, signature %d bytes, signerInfo nil: %v | case: %s", len(sig), si == nil, c.describe())
+				if len(sig) == 0 {
+					// "a result or an error": neither
+					res.viol("consistency/sign-success-without-result:PluginSigner.Sign", "PluginSigner.Sign returned no error and no signature | case: %s", c.describe())
 					class = "violation"
 					return
+				}
+				if si == nil {
+					res.class("recorded:PluginSigner.Sign/success-with-nil-signer-info")
 				}
 				_ = ps.PluginAnnotations()
 				class = "signed"
@@ -864,7 +930,7 @@ func (x *wctx) runDocument(c *Case, res *Result) error {
 					// the constructor must refuse it too
 					*stage = "verifier.NewVerifierWithOptions"
 					if v, err := verifier.NewVerifierWithOptions(x.ts, verifier.VerifierOptions{OCITrustPolicy: doc}); err == nil || v != nil {
-						res.viol("consistency/invalid-policy-accepted-by-constructor:oci-policy", "Validate fails (%v) but NewVerifierWithOptions accepts the document | case: %s", doc.Validate(), c.describe())
+						res.class("recorded:invalid-policy-accepted-by-constructor:oci-policy")
 					}
 					return
 				}
@@ -888,7 +954,7 @@ func (x *wctx) runDocument(c *Case, res *Result) error {
 						}
 					}
 				}
-				class = "loaded-valid:" + x.exerciseOCI(res, c, stage, v, refs)
+				class = "loaded-valid:" + x.exerciseOCI(res, c, stage, v, doc, refs)
 			})
 			res.class("%s%s:%s", pre, path, class)
 		}
@@ -918,7 +984,7 @@ func (x *wctx) runDocument(c *Case, res *Result) error {
 				class = "loaded-invalid"
 				*stage = "verifier.NewVerifierWithOptions"
 				if v, err := verifier.NewVerifierWithOptions(x.ts, verifier.VerifierOptions{BlobTrustPolicy: doc}); err == nil || v != nil {
-					res.viol("consistency/invalid-policy-accepted-by-constructor:blob-policy", "Validate fails (%v) but NewVerifierWithOptions accepts the document | case: %s", doc.Validate(), c.describe())
+					res.class("recorded:invalid-policy-accepted-by-constructor:blob-policy")
 				}
 				return
 			}
@@ -935,7 +1001,7 @@ func (x *wctx) runDocument(c *Case, res *Result) error {
 					names = append(names, n)
 				}
 			}
-			class = "loaded-valid:" + x.exerciseBlob(res, c, stage, v, names)
+			class = "loaded-valid:" + x.exerciseBlob(res, c, stage, v, doc, names)
 		})
 		res.class("%s%s", pre, class)
 	case "signingkeys":
@@ -1025,9 +1091,14 @@ func (x *wctx) runDocument(c *Case, res *Result) error {
 				class = "get-error"
 				return
 			}
-			if b == nil || b.BaseCRL == nil {
-				res.viol("consistency/nil-result-without-error:crl.FileCache.Get", "FileCache.Get returned no error and a bundle without base CRL | case: %s", c.describe())
+			if b == nil {
+				res.viol("consistency/nil-result-without-error:crl.FileCache.Get", "FileCache.Get returned neither a bundle nor an error | case: %s", c.describe())
 				class = "violation"
+				return
+			}
+			if b.BaseCRL == nil {
+				res.class("recorded:crl.FileCache.Get/bundle-without-base-crl")
+				class = "bundle-returned"
 				return
 			}
 			res.Nontrivial = true
@@ -1076,14 +1147,14 @@ func summarise(seen map[string]bool) string {
 
 // exerciseOCI calls verifier.Verify and notation.Verify with every signature kind under every reference
 // (one per registry scope of the accepted document) and judges each call. Runs inside the caller's protected region.
-func (x *wctx) exerciseOCI(res *Result, c *Case, stage *string, v bothVerifier, refs []string) string {
+func (x *wctx) exerciseOCI(res *Result, c *Case, stage *string, v bothVerifier, doc *trustpolicy.OCIDocument, refs []string) string {
 	seen := map[string]bool{}
 	for _, ref := range refs {
 		for _, sc := range x.sigCases("oci") {
 			*stage = "verifier.Verify"
 			o, err := v.Verify(ctx, x.fx.Desc, sc.sig, notation.VerifierVerifyOptions{ArtifactReference: ref, SignatureMediaType: sc.mt})
 			touchOutcome(o, stage)
-			seen[judgeVerifier(res, "verifier.Verify", c, o, err)] = true
+			seen[judgeVerifier(res, "verifier.Verify", c, o, err, selectableOCI(doc, ref))] = true
 			*stage = "notation.Verify"
 			seen[x.judgeNotationVerify(res, c, stage, v, &mockRepo{desc: x.fx.Desc, sig: sc.sig, mt: sc.mt}, ref)] = true
 			res.Evals += 2
@@ -1093,14 +1164,14 @@ func (x *wctx) exerciseOCI(res *Result, c *Case, stage *string, v bothVerifier, 
 }
 
 // exerciseBlob does the same for verifier.VerifyBlob and notation.VerifyBlob under every statement name and the global statement.
-func (x *wctx) exerciseBlob(res *Result, c *Case, stage *string, v bothVerifier, names []string) string {
+func (x *wctx) exerciseBlob(res *Result, c *Case, stage *string, v bothVerifier, doc *trustpolicy.BlobDocument, names []string) string {
 	seen := map[string]bool{}
 	for _, name := range names {
 		for _, sc := range x.sigCases("blob") {
 			*stage = "verifier.VerifyBlob"
 			o, err := v.VerifyBlob(ctx, blobDescGen(x.fx.Blob), sc.sig, notation.BlobVerifierVerifyOptions{SignatureMediaType: sc.mt, TrustPolicyName: name})
 			touchOutcome(o, stage)
-			seen[judgeVerifier(res, "verifier.VerifyBlob", c, o, err)] = true
+			seen[judgeVerifier(res, "verifier.VerifyBlob", c, o, err, selectableBlob(doc, name))] = true
 			*stage = "notation.VerifyBlob"
 			_, o, err = notation.VerifyBlob(ctx, v, bytes.NewReader(x.fx.Blob), sc.sig, notation.VerifyBlobOptions{BlobVerifierVerifyOptions: notation.BlobVerifierVerifyOptions{SignatureMediaType: sc.mt, TrustPolicyName: name}})
 			touchOutcome(o, stage)
@@ -1391,7 +1462,7 @@ func (x *wctx) runPlugin(c *Case, res *Result) error {
 						}
 						o, err := v.Verify(ctx, x.fx.Desc, x.fx.Sigs["oci/jws+plugin"], notation.VerifierVerifyOptions{ArtifactReference: refRepo + "@" + x.fx.Desc.Digest.String(), SignatureMediaType: mtJWS})
 						touchOutcome(o, stage)
-						class = judgeVerifier(res, "verifier.Verify", c, o, err)
+						class = judgeVerifier(res, "verifier.Verify", c, o, err, true)
 						if class == "accepted" {
 							res.Nontrivial = true
 						}
@@ -1419,10 +1490,13 @@ func (x *wctx) runPlugin(c *Case, res *Result) error {
 							class = "sign-error"
 							return
 						}
-						if si == nil || len(sig) == 0 {
-							res.viol("consistency/sign-success-without-result:"+p.name, "%s returned no error, signature %d bytes, signerInfo nil: %v | case: %s", p.name, len(sig), si == nil, c.describe())
+						if len(sig) == 0 {
+							res.viol("consistency/sign-success-without-result:"+p.name, "%s returned no error and no signature | case: %s", p.name, c.describe())
 							class = "violation"
 							return
+						}
+						if si == nil {
+							res.class("recorded:PluginSigner.Sign/success-with-nil-signer-info")
 						}
 						_ = ps.PluginAnnotations()
 						class = "signed"
@@ -1459,7 +1533,7 @@ func (x *wctx) runNilArgs(c *Case, res *Result) error {
 	vbo := notation.VerifyBlobOptions{BlobVerifierVerifyOptions: notation.BlobVerifierVerifyOptions{SignatureMediaType: mtJWS, TrustPolicyName: "p"}}
 	sig := x.fx.Sigs["blob/jws"]
 	var gotErr error
-	wantErr := true
+	wantErr, unknown := true, false
 	x.call(res, c, c.Label, func(stage *string) {
 		switch c.Label {
 		case "notation.Verify:nil-verifier":
@@ -1514,19 +1588,19 @@ func (x *wctx) runNilArgs(c *Case, res *Result) error {
 			var o *notation.VerificationOutcome
 			o, gotErr = v.Verify(ctx, ocispec.Descriptor{}, x.fx.Sigs["oci/jws"], notation.VerifierVerifyOptions{ArtifactReference: ref, SignatureMediaType: mtJWS})
 			touchOutcome(o, stage)
-			_ = judgeVerifier(res, "verifier.Verify", c, o, gotErr)
+			_ = judgeVerifier(res, "verifier.Verify", c, o, gotErr, true)
 		case "verifier.VerifyBlob:failing-descriptor-generator":
 			var o *notation.VerificationOutcome
 			o, gotErr = v.VerifyBlob(ctx, func(digest.Algorithm) (ocispec.Descriptor, error) {
 				return ocispec.Descriptor{}, errors.New("harness: generator fails")
 			}, sig, vbo.BlobVerifierVerifyOptions)
 			touchOutcome(o, stage)
-			_ = judgeVerifier(res, "verifier.VerifyBlob", c, o, gotErr)
+			_ = judgeVerifier(res, "verifier.VerifyBlob", c, o, gotErr, true)
 		case "verifier.Verify:nil-maps-and-empty-options":
 			var o *notation.VerificationOutcome
 			o, gotErr = v.Verify(ctx, x.fx.Desc, x.fx.Sigs["oci/jws"], notation.VerifierVerifyOptions{})
 			touchOutcome(o, stage)
-			_ = judgeVerifier(res, "verifier.Verify", c, o, gotErr)
+			_ = judgeVerifier(res, "verifier.Verify", c, o, gotErr, false) // an empty reference selects nothing
 		case "VerificationOutcome.UserMetadata:zero-outcome":
 			_, gotErr = (&notation.VerificationOutcome{}).UserMetadata()
 		case "VerificationOutcome.UserMetadata:non-json-payload":
@@ -1602,24 +1676,74 @@ func (x *wctx) runNilArgs(c *Case, res *Result) error {
 				gotErr = r.ListSignatures(ctx, ocispec.Descriptor{}, func([]ocispec.Descriptor) error { return nil })
 			}
 		default:
-			gotErr = fmt.Errorf("harness: unknown nil-argument case %q", c.Label)
-			res.viol("harness/unknown-case", "%s", c.Label)
+			unknown = true
 		}
 		if gotErr != nil {
 			_ = gotErr.Error()
 		}
 	})
+	if unknown {
+		return fmt.Errorf("unknown nil-argument case %q", c.Label)
+	}
 	res.Nontrivial = true
 	switch {
 	case gotErr != nil:
 		res.class("nil-arguments:error-returned")
 	case wantErr:
-		res.viol("nil-arguments/no-error:"+c.Label, "%s returned no error", c.Label)
-		res.class("nil-arguments:violation")
+		// the statement demands a normal return (no panic), not an error
+		res.class("recorded:nil-arguments/no-error:%s", c.Label)
 	default:
 		res.class("nil-arguments:returned-normally")
 	}
 	return nil
+}
+
+// settle waits until the goroutines the case started are gone (bounded). oras-go indexes a layout on goroutines
+// of its own (syncutil.Go); the call returns at the first error while the others still run, and what they do
+// (allocate, panic) must be charged to THIS case, not to the next one of the batch.
+func settle(baseline int, min, max time.Duration) {
+	start := time.Now()
+	for {
+		el := time.Since(start)
+		if el >= max || (el >= min && runtime.NumGoroutine() <= baseline) {
+			return
+		}
+		time.Sleep(time.Millisecond)
+	}
+}
+
+// runSettled executes one case, waits for its stray goroutines and meters the whole case.
+func (x *wctx) runSettled(c *Case, isolated bool) (*Result, error) {
+	baseline := runtime.NumGoroutine()
+	var m0, m1 runtime.MemStats
+	runtime.ReadMemStats(&m0)
+	res, err := x.run(c)
+	if isolated {
+		settle(baseline, time.Second, 20*time.Second)
+	} else if runtime.NumGoroutine() > baseline {
+		settle(baseline, 0, 10*time.Second)
+	}
+	if res != nil {
+		res.Isolated = isolated
+		runtime.ReadMemStats(&m1)
+		d := m1.TotalAlloc - m0.TotalAlloc
+		calls := uint64(res.Evals)
+		if calls == 0 {
+			calls = 1
+		}
+		if d > allocCeiling*calls && len(c.Input) <= smallInput {
+			already := false
+			for _, v := range res.Viols {
+				if strings.HasPrefix(v.Key, "runaway-allocation") {
+					already = true
+				}
+			}
+			if !already {
+				res.viol(allocKey(c), "the case allocated %d MiB in %d calls including the goroutines it left behind (ceiling %d MiB per call) for an input of %d bytes | case: %s", d>>20, calls, allocCeiling>>20, len(c.Input), c.describe())
+			}
+		}
+	}
+	return res, err
 }
 
 // run executes one case.
@@ -1631,7 +1755,7 @@ func (x *wctx) run(c *Case) (*Result, error) {
 	case "config-matrix":
 		x.runMatrix(c, res)
 	case "reader-seam":
-		x.runReaderSeam(c, res)
+		err = x.runReaderSeam(c, res)
 	case "nil-arguments":
 		err = x.runNilArgs(c, res)
 	case "envelope-byte-mutation", "envelope-json-node":
